@@ -93,4 +93,103 @@ theorem Agree.movingSum {x : Nat → Nat → ℝ} {e : Sig ℝ} {P : PS ℝ} (p 
       simp only [hlt, e2, e3, if_false, T_succ]
       ring
 
+
+theorem Agree.sma {x : Nat → Nat → ℝ} {e : Sig ℝ} {P : PS ℝ} (p : Nat) (hp : 1 ≤ p) (h : Agree x e P) :
+    Agree x (Ind.sma p e) (PS.sma p P) := by
+  have hm := Agree.movingSum p hp h
+  refine ⟨hm.1, ?_⟩
+  intro i hi
+  simp only [Ind.sma, den, PS.sma, PS.over, PS.map]
+  rw [hm.2 i hi]
+
+theorem recurFrom_eq_recG (upd : ℝ → ℝ → ℝ) (b : ℝ) (G : Nat → ℝ) (m : Nat) :
+    recurFrom upd b G m = PS.recG b (fun prev k => upd prev (G k)) m := by
+  induction m with
+  | zero => rfl
+  | succ m ih => simp [recurFrom, PS.recG, ih]
+
+theorem smaSeed_eq (p : Nat) (l : List ℝ) : Ind.smaSeed p l = PS.sumL l / (p : ℝ) := by
+  simp only [Ind.smaSeed, PS.sumL, Ind.zero]
+  congr 1
+  have : ∀ (acc : ℝ), List.foldl (fun s c => s + c - Arith.nat 0) acc l = List.foldl (fun a b => a + b) acc l := by
+    induction l with
+    | nil => intro acc; rfl
+    | cons x t ih => intro acc; simp [List.foldl, ih]
+  simpa using this _
+
+/-- Ema / Rma / Smma: seed = mean of the first `p` values, then the recurrence -/
+theorem Agree.recurAvg {x : Nat → Nat → ℝ} {e : Sig ℝ} {P : PS ℝ} (N p : Nat) (upd : ℝ → ℝ → ℝ) (hp : 1 ≤ p)
+    (h : Agree x e P) : Agree x (recur p (Ind.smaSeed p) upd e) (PS.recAvg N p upd P) := by
+  have hoff := h.offD
+  have hp0 : p ≠ 0 := by omega
+  constructor
+  · simp [off, h.1, hp0, PS.recAvg]
+  · intro i hi
+    simp only [PS.recAvg] at hi ⊢
+    simp only [den, hoff, recurAt, PS.tabVal_eq]
+    rw [recurFrom_eq_recG]
+    congr 1
+    · -- seed
+      rw [smaSeed_eq]
+      simp only [ArithReal.div_eq, ArithReal.arith_nat]
+      congr 2
+      simp only [PS.window]
+      apply List.map_congr_left
+      intro j hj
+      simp at hj
+      have e1 : P.start + (p - 1) + 1 - p + j = P.start + j := by omega
+      rw [e1]; exact h.2 _ (by omega)
+    · funext prev k
+      congr 1
+      have e1 : P.start + (p - 1) + k + 1 = P.start + (p + k) := by omega
+      rw [e1]; exact h.2 _ (by omega)
+
+theorem Agree.ema {x : Nat → Nat → ℝ} {e : Sig ℝ} {P : PS ℝ} (N p : Nat) (sm : ℝ) (hp : 1 ≤ p) (h : Agree x e P) :
+    Agree x (Ind.ema p sm e) (PS.ema N p sm P) := Agree.recurAvg N p _ hp h
+
+theorem Agree.rma {x : Nat → Nat → ℝ} {e : Sig ℝ} {P : PS ℝ} (N p : Nat) (hp : 1 ≤ p) (h : Agree x e P) :
+    Agree x (Ind.rma p e) (PS.rma N p P) := Agree.recurAvg N p _ hp h
+
+theorem Agree.smma {x : Nat → Nat → ℝ} {e : Sig ℝ} {P : PS ℝ} (N p : Nat) (hp : 1 ≤ p) (h : Agree x e P) :
+    Agree x (Ind.smma p e) (PS.smma N p P) := by
+  have := Agree.recurAvg N p (fun before n => ((before * ((p : ℝ) - 1)) + n) / (p : ℝ)) hp h
+  refine ⟨this.1, ?_⟩
+  intro i hi
+  have h2 := this.2 i hi
+  simp only [Ind.smma, PS.smma, PS.rma] at h2 ⊢
+  -- (nat p - one) = nat (p - 1) over ℝ for p ≥ 1
+  have hcast : ((p - 1 : ℕ) : ℝ) = (p : ℝ) - 1 := by
+    rw [Nat.cast_sub hp]; simp
+  have hupd : (fun (before n : ℝ) => ((before * (Arith.nat p - Ind.one)) + n) / Arith.nat p)
+      = fun before n => ((before * ((p : ℝ) - 1)) + n) / (p : ℝ) := by
+    funext b n; simp [Ind.one]
+  have hupd2 : (fun (prev v : ℝ) => ((prev * Arith.nat (p - 1)) + v) / Arith.nat p)
+      = fun before n => ((before * ((p : ℝ) - 1)) + n) / (p : ℝ) := by
+    funext b n; simp [hcast]
+  rw [hupd, hupd2]
+  exact h2
+
+/-- helper.MapWithPrevious(c, previous + current, 0) = cumulative sum from the start position -/
+theorem Agree.cumSum {x : Nat → Nat → ℝ} {e : Sig ℝ} {P : PS ℝ} (N : Nat) (h : Agree x e P) :
+    Agree x (Ind.cumSum e) (PS.cumul N P.start (Arith.nat 0) (fun acc i => acc + P.val i)) := by
+  have hoff := h.offD
+  constructor
+  · simp [Ind.cumSum, off, h.1, PS.cumul]
+  · intro i hi
+    simp only [PS.cumul] at hi ⊢
+    simp only [Ind.cumSum, den, hoff, PS.tabVal_eq, scanOut]
+    have key : ∀ m, (scanSt (fun (prev cur : ℝ) => (prev + cur, prev + cur)) Ind.zero
+        (fun m => den x e (P.start + m)) (m + 1)) = PS.recG ((Arith.nat 0 : ℝ) + P.val P.start) (fun acc k => acc + P.val (P.start + k + 1)) m := by
+      intro m
+      induction m with
+      | zero => simp [scanSt, PS.recG, Ind.zero, h.2 P.start (Nat.le_refl _)]
+      | succ m ih =>
+        rw [scanSt, ih]
+        simp only [PS.recG]
+        have := h.2 (P.start + (m + 1)) (by omega)
+        simp [this, Nat.add_assoc]
+    have := key (i - P.start)
+    simp only [scanSt] at this
+    exact this
+
 end Sig
